@@ -134,6 +134,14 @@ mut("f35-spsc-outer-loop-removed", ["C17"], "thread-park/in-a-loop-on-a-conditio
     ("src/sync/spsc.rs", "        loop {\n            match self.inner.recv() {\n                Err(TryRecvError::Empty) => {}\n                data => return data.map_err(|_| RecvError),\n            }\n        }",
      "        match self.inner.recv() {\n            Err(TryRecvError::Empty) => self.inner.recv().map_err(|_| RecvError),\n            data => data.map_err(|_| RecvError),\n        }"))
 
+# ---- F36 / F37: revert (the scope functions run the user's closure with their blocking destructor as landing pad)
+mut("f36-revert-cqueue-scope-landing-pad", ["C14", "C16"], "no-blocking-landing-pad:Cqueue",
+    ("src/cqueue.rs", "        let ret = panic::catch_unwind(panic::AssertUnwindSafe(|| f(&cqueue)));\n        if ret.is_err() {", "        let ret: std::thread::Result<R> = Ok(f(&cqueue));\n        if ret.is_err() {"))
+mut("f37-revert-scope-landing-pad", ["C14"], "no-blocking-landing-pad:Scope",
+    ("src/scoped.rs", "    let ret = panic::catch_unwind(panic::AssertUnwindSafe(|| f(&scope)));\n", "    let ret: std::thread::Result<R> = Ok(f(&scope));\n"))
+mut("f37-scope-skips-joins-when-body-panics", ["C14"], "scope/join-after-body",
+    ("src/scoped.rs", "    let dtor_panic = scope.drop_all();\n    match (ret, dtor_panic) {", "    let dtor_panic = if ret.is_ok() { scope.drop_all() } else { None };\n    match (ret, dtor_panic) {"))
+
 # ---- F18: revert (nested run while the wait_kernel guard is held)
 mut("f18-revert-nested-run-under-guard", ["C01", "C02"], "no-nested-run-under-guard",
     ("src/park.rs", "                drop(g);\n                // here may have recursive call for subscribe", "                let _keep = &g;\n                // here may have recursive call for subscribe"))
